@@ -21,7 +21,7 @@ from __future__ import annotations
 import ast
 
 from harness.common import SRC, TranslateError
-from translate.c07_index_shapes import _MaintTr, _find, _strip_doc, _is_self
+from translate.c07_index_shapes import _MaintTr, _coq_str, _find, _strip_doc, _is_self
 
 INDEXES = ('by_class', 'by_target')
 
@@ -94,6 +94,9 @@ class _VTr:
                 return ('VCIsSpawn' if isinstance(op, ast.Is) else '(VCNot VCIsSpawn)'), False
             if isinstance(op, (ast.In, ast.NotIn)) and self.is_item(a) and _self_attr(b, 'entities'):
                 return ('VCInEnts' if isinstance(op, ast.In) else '(VCNot VCInEnts)'), True
+        if isinstance(e, ast.Attribute) and self.is_item(e.value) and e.attr.isascii():
+            # round 5: a flag kept on the entity object: state the model does not have -> [VCCached], decided by no fact
+            return f'(VCCached {_coq_str(e.attr)})', False
         raise TranslateError(f'{w}: unrecognised condition {ast.unparse(e)}')
 
     # -- statements
